@@ -22,7 +22,7 @@ from typing_extensions import NotRequired, TypedDict
 
 __all__ = [
     "TDk",
-    "Rev", "Fwd", "IntKeyed", "LS", "KT", "VT", "FSub", "ISub", "Pops", "T_co", "ANYTHING", "SENTINEL", "NAN", "Perm",
+    "Rev", "Fwd", "IntKeyed", "LS", "KT", "VT", "FSub", "ISub", "Pops", "T_co", "ANYTHING", "SENTINEL", "NAN", "Perm", "Dyn",
     "kwmap_int", "kwmap_str", "seq_int", "seq_str",
     "A", "B", "C", "D", "G", "E", "IE", "N", "TD", "TDp", "TDn", "HasX", "SupportsClose",
     "Suppress", "NoSuppress", "cond", "call", "use", "ident", "first", "pair", "apply_fn",
@@ -320,6 +320,17 @@ class Pops(Protocol[T_co]):
     """Structural and generic: list[int] is a Pops[int] (list.pop returns the element type)."""
 
     def pop(self) -> T_co: ...
+
+
+class _DynMeta(type):
+    def __getattr__(cls, name):
+        if name == "Inner":
+            return A
+        raise AttributeError(name)
+
+
+class Dyn(metaclass=_DynMeta):
+    """`Dyn.Inner` is the class A, served by the metaclass's __getattr__ (not stored in any __dict__)."""
 
 
 class _Anything:
